@@ -101,8 +101,13 @@ def gen_number(rng, np):
         x = rng.uniform(-1, 1) * 10.0 ** rng.randint(0, 15)
     elif m < 0.80:
         x = rng.randint(-10 ** rng.randint(0, 15), 10 ** rng.randint(0, 15))
-    elif m < 0.84:
-        x = np.int64(rng.randint(-2 ** 53, 2 ** 53))
+    elif m < 0.84:  # numpy's fixed-width integers, the ends of their ranges included (abs() of a minimum wraps around)
+        dt = rng.choice([np.int8, np.int16, np.int32, np.uint8, np.uint16, np.uint32, np.int64, np.int64])
+        if dt is np.int64:
+            x = np.int64(rng.randint(-2 ** 53, 2 ** 53))
+        else:
+            info = np.iinfo(dt)
+            x = dt(rng.choice([info.min, info.max, rng.randint(info.min, info.max), rng.randint(info.min, info.max)]))
     elif m < 0.90:
         x = np.float64(rng.uniform(-100, 100) * 2.0 ** rng.randint(-30, 30))
     elif m < 0.97:
